@@ -68,7 +68,12 @@ def cases(tier, rng):
                                alphaqed=float(rng.uniform(0.007, 0.008)), ModEv="EXA")  # fmt: skip
             if i % 4 < 2:
                 # matching scales away from the masses (k != 1): the flavour number of the coupling changes at (k m)^2, not at m^2 or k m^2
-                c["theory"].update({f"k{q}Thr": float(cards.pick(rng, [0.5, 0.7, 1.4, 2.0, 3.0])) for q in "cbt"})
+                for _ in range(20):  # (matching scales kept in increasing order: eko's atlas assumes sorted walls)
+                    ks = {f"k{q}Thr": float(cards.pick(rng, [0.5, 0.7, 1.4, 2.0, 3.0])) for q in "cbt"}
+                    t_ = cards.theory(**dict(c["theory"], **ks))
+                    if t_["mc"] * ks["kcThr"] < t_["mb"] * ks["kbThr"] < t_["mt"] * ks["ktThr"]:
+                        c["theory"].update(ks)
+                        break
             th = cards.theory(**c["theory"])
             # nfref consistent with the scheme at Qref - or, in a third of the cases, the threshold count at Qref whatever the scheme,
             # so that the coupling has to be carried across matching scales; both heavy-quark mass schemes
